@@ -24,7 +24,7 @@ import json
 import logging
 import os
 
-from harness.chan_world import World, CHAN_FD
+from harness.chan_world import World, ScriptSock, CHAN_FD
 from harness.sched import RandomPolicy, PCTPolicy, explore
 
 logging.disable(logging.CRITICAL)
@@ -33,18 +33,40 @@ logging.disable(logging.CRITICAL)
 # ----------------------------------------------------------------------------
 # scenarios
 
-def request_bytes(r):
-    v = r.get("v", "1.1")
-    h = "GET %s HTTP/%s\r\nHost: h\r\n" % (r["path"], v)
-    if r.get("close"):
-        h += "Connection: close\r\n"
-    elif v == "1.0" and r.get("ka"):
-        h += "Connection: keep-alive\r\n"
-    body = b""
-    if r.get("expect"):
-        body = b"B" * int(r.get("body", 3))
-        h += "Expect: 100-continue\r\nContent-Length: %d\r\n" % len(body)
-    return h.encode() + b"\r\n", body
+def parts_of(sc):
+    """-> list of (kind, bytes): kind 'r' complete request, 'h' head of an expecting
+    request, 'b' its body."""
+    out = []
+    for r in sc["reqs"]:
+        v = "1.1" if r.get("expect") else r.get("v", "1.1")   # the parser honours Expect only for HTTP/1.1
+        h = "GET %s HTTP/%s\r\nHost: h\r\n" % (r["path"], v)
+        if r.get("close"):
+            h += "Connection: close\r\n"
+        elif v == "1.0" and r.get("ka"):
+            h += "Connection: keep-alive\r\n"
+        if r.get("expect"):
+            body = b"B" * int(r.get("body", 3))
+            h += "Expect: 100-continue\r\nContent-Length: %d\r\n" % len(body)
+            out.append(("h", h.encode() + b"\r\n"))
+            out.append(("b", body))
+        else:
+            out.append(("r", h.encode() + b"\r\n"))
+    return out
+
+
+def segments(sc):
+    """-> list of (items string, bytes) the client sends, in order"""
+    parts = parts_of(sc)
+    segs = sc.get("segs", "per_part")
+    if segs == "one":
+        groups = [list(range(len(parts)))]
+    elif segs == "per_part":
+        groups = [[i] for i in range(len(parts))]
+    else:
+        groups = [list(g) for g in segs]
+    flat = [i for g in groups for i in g]
+    assert flat == list(range(len(parts))), "segs must partition the parts in order"
+    return [("".join(parts[i][0] for i in g), b"".join(parts[i][1] for i in g)) for g in groups if g]
 
 
 def make_app(reqs):
@@ -66,35 +88,123 @@ def make_app(reqs):
 
 
 def client_script(sc):
-    """The client sends every request (cut as sc['cuts'] says), expecting
-    requests hold their body back until the wire shows progress is impossible
-    to observe here, so the body is simply a later send."""
-    stream = []
-    for r in sc["reqs"]:
-        head, body = request_bytes(r)
-        stream.append(head)
-        if body:
-            stream.append(body)
-    cuts = sc.get("cuts")
-    if cuts == "one":
-        steps = [("send", b"".join(stream))]
-    elif cuts == "per_part" or cuts is None:
-        steps = [("send", s) for s in stream]
-    else:  # explicit list of byte offsets
-        whole = b"".join(stream)
-        offs = [0] + [c for c in cuts if 0 < c < len(whole)] + [len(whole)]
-        steps = [("send", whole[a:b]) for a, b in zip(offs, offs[1:]) if b > a]
+    steps = [("send", data) for _, data in segments(sc)]
     if sc.get("client_close"):
         steps.append(("close",))
     return steps
 
 
+class NotingSock(ScriptSock):
+    """ScriptSock that records the answer of every send()/recv() in the trace."""
+
+    def send(self, data):
+        try:
+            n = ScriptSock.send(self, data)
+        except OSError as e:
+            code = e.args[0]
+            self.w.sched.note("send_result", "z" if code == errno.EWOULDBLOCK else ("d" if code in _DISC else "e"))
+            raise
+        self.w.sched.note("send_result", "ok%d" % n)
+        return n
+
+    def recv(self, n):
+        try:
+            d = ScriptSock.recv(self, n)
+        except OSError as e:
+            self.w.sched.note("recv_result", "01" if e.args[0] in _DISC else "00")
+            raise
+        self.w.sched.note("recv_result", "10" if d else "01")
+        return d
+
+
+_DISC = frozenset({errno.ECONNRESET, errno.ENOTCONN, errno.ESHUTDOWN, errno.ECONNABORTED, errno.EPIPE, errno.EBADF})
+SNAP_FIELDS = ("wc", "cwf", "conn", "total", "nreq", "ol", "rl", "closed", "pulled", "queue", "pend")
+
+
+class WakeWorld(World):
+    """World + the notes the model alignment needs (application writes, end of
+    the task with close_on_finish, what handle_close left in the buffers, send /
+    recv answers) + a snapshot of the shared state before every labelled operation."""
+
+    def __init__(self, *a, **kw):
+        sndbuf = kw.get("sndbuf", 1 << 16)
+        World.__init__(self, *a, **kw)
+        self.sock = NotingSock(self, kw.get("send_plan", ()), kw.get("recv_faults"), sndbuf, kw.get("setup_faults"))
+        self.sched.observer = self._observe
+
+    def _tname(self, lt):
+        if lt is None:
+            return "-"
+        n = lt.name
+        return "io" if n == "io" else ("w" + n.split("-")[1] if n.startswith("waitress-") else n)
+
+    def _observe(self, sched, t, op):
+        ch = self.channel
+        if ch is None or not self.tracing:
+            return None
+        g = lambda n: object.__getattribute__(ch, n)
+        closed = CHAN_FD not in self.map
+        try:
+            pend = sum(b.__len__() for b in g("outbufs"))
+        except Exception:
+            pend = -1
+        return (int(g("will_close")), int(g("close_when_flushed")), int(bool(g("connected"))), g("total_outbufs_len"),
+                len(g("requests")), self._tname(g("outbuf_lock").lock.owner), self._tname(g("requests_lock").owner),
+                int(closed), int(self.trigger.pulled), len(self.dispatcher.queue),
+                "x" if closed else ("*" if (g("outbuf_lock").lock.owner is not None or not g("connected")) else pend))
+
+    def _make_channel_class(self):
+        base = World._make_channel_class(self)
+        world = self
+        from waitress.task import WSGITask, ErrorTask
+
+        def noting(cls):
+            class T(cls):
+                def service(self):
+                    raised = True
+                    try:
+                        r = cls.service(self)
+                        raised = False
+                        return r
+                    finally:
+                        world.sched.note("task_end", int(bool(raised or self.close_on_finish)))
+            T.__name__ = cls.__name__
+            return T
+
+        class WakeChannel(base):
+            task_class = noting(WSGITask)
+            error_task_class = noting(ErrorTask)
+
+            def write_soon(self, data):
+                n = len(data)
+                if n:
+                    world.sched.note("write_soon", n)
+                return base.write_soon(self, data)
+
+            def send_continue(self):
+                world.sched.note("send_continue", None)
+                return base.send_continue(self)
+
+            def handle_close(self):
+                try:
+                    return base.handle_close(self)
+                finally:
+                    try:
+                        left = sum(b.__len__() for b in object.__getattribute__(self, "outbufs"))
+                    except Exception:
+                        left = 0
+                    world.sched.note("hc_keep", int(left > 0))
+
+        return WakeChannel
+
+
 def make_world(sc, schedule=(), policy=None, max_steps=6000):
     plan = [tuple(p) if isinstance(p, list) else p for p in sc.get("send_plan", [])]
-    return World(make_app(sc["reqs"]), client_script(sc), schedule=schedule, policy=policy,
-                 adj_kw=dict(sc.get("adj", {})), n_workers=sc.get("workers", 1), send_plan=plan,
-                 granularity=sc.get("gran", "locks"), use_poll=bool(sc.get("poll")),
-                 max_steps=max_steps, sndbuf=sc.get("sndbuf", 1 << 16))
+    rf = {int(k): v for k, v in (sc.get("recv_faults") or {}).items()}
+    return WakeWorld(make_app(sc["reqs"]), client_script(sc), schedule=schedule, policy=policy,
+                     adj_kw=dict(sc.get("adj", {})), n_workers=sc.get("workers", 1), send_plan=plan,
+                     recv_faults=rf, granularity=sc.get("gran", "locks"), use_poll=bool(sc.get("poll")),
+                     max_steps=max_steps, sndbuf=sc.get("sndbuf", 1 << 16))
 
 
 # ----------------------------------------------------------------------------
@@ -205,3 +315,129 @@ def replay_dict(sc, world, cls, probs):
             "observed": {"class": cls, "problems": probs, "final": {k: v for k, v in world.final.items() if k != "blocked"},
                          "parked": parked(world) if world.verdict == "blocked" else {}},
             "failing_input_found": True}
+
+
+# ----------------------------------------------------------------------------
+# mapping of a real trace to the event stream of the model (ocaml/chanwake/driver.ml: trace)
+
+ATTR = {"will_close": "wc", "close_when_flushed": "cwf", "connected": "conn", "total_outbufs_len": "tot",
+        "requests": "req", "request": "rq"}
+
+
+def model_tokens(world, sc):
+    """-> (header words, tokens) for the driver's `trace` command."""
+    ch = world.channel
+    g = lambda n: object.__getattribute__(ch, n)
+    disp = world.dispatcher
+    locks = {disp.lock.name: "d", g("requests_lock").name: "r", g("outbuf_lock").lock.name: "o"}
+    cvs = {disp.queue_cv.name: "q", g("outbuf_lock").name: "o"}
+    ev = world.sched.events
+    segs = segments(sc)
+    nseg = 0
+
+    def tname(n):
+        if n == "io":
+            return "io"
+        if n == "client":
+            return "c"
+        if n.startswith("waitress-"):
+            return "w" + n.split("-")[1]
+        return None
+
+    # the last task_end of every service() span is the task's verdict
+    last_task_end = set()
+    open_span = {}
+    for i, (th, kind, det) in enumerate(ev):
+        if kind == "service_start":
+            open_span[th] = None
+        elif kind == "task_end":
+            open_span[th] = i
+        elif kind == "service_end":
+            if open_span.get(th) is not None:
+                last_task_end.add(open_span[th])
+            open_span[th] = None
+    for th, i in open_span.items():      # service() still running at the end of the run
+        if i is not None:
+            last_task_end.add(i)
+
+    toks = []   # (event index, thread, label, arg)
+    for i, (th, kind, det) in enumerate(ev):
+        t = tname(th)
+        if t is None:
+            continue
+        lab = arg = None
+        if kind == "begin":
+            lab = "Begin"
+        elif kind.startswith("R:") or kind.startswith("W:"):
+            a = ATTR.get(kind[2:])
+            if a:
+                lab = kind[0] + a
+        elif kind in ("acquire", "try_acquire", "release", "reacquire"):
+            l = locks.get(det)
+            if l:
+                lab = {"acquire": "Aq", "try_acquire": "Tr", "release": "Rl", "reacquire": "Aq"}[kind] + l
+        elif kind == "wait":
+            if det in cvs:
+                lab = "Wt" + cvs[det]
+        elif kind == "wake":
+            if det[0] in cvs:
+                lab = "Wk" + cvs[det[0]]
+        elif kind in ("notify", "notify_all"):
+            if det[0] in cvs:
+                lab = "Nf" + cvs[det[0]]
+        elif kind == "sock_send":
+            lab = "Sd"
+            arg = "?"
+            for j in range(i + 1, len(ev)):
+                if ev[j][0] == th and ev[j][1] == "send_result":
+                    arg = ev[j][2]
+                    break
+                if ev[j][0] == th and ev[j][1] == "sock_send":
+                    break
+        elif kind == "sock_recv":
+            lab = "Rv"
+            arg = "?"
+            for j in range(i + 1, len(ev)):
+                if ev[j][0] == th and ev[j][1] == "recv_result":
+                    arg = ev[j][2]
+                    break
+        elif kind == "select":
+            lab = "Sel"
+        elif kind == "pull_trigger":
+            lab = "Pull"
+        elif kind == "add_task":
+            lab = "AddTask"
+        elif kind == "map_del":
+            lab = "MapDel"
+        elif kind == "write_soon":
+            lab, arg = "Write", str(det)
+        elif kind == "task_end":
+            if i in last_task_end:
+                lab, arg = "Done", str(det)
+        elif kind == "hc_keep":
+            lab, arg = "Keep", str(det)
+        elif kind == "client:send":
+            lab, arg = "Client", segs[nseg][0]
+            nseg += 1
+        elif kind == "client:close":
+            lab = "ClientClose"
+        if lab is not None:
+            if arg == "?":
+                continue   # the operation was announced but the run ended before it was performed
+            toks.append([i, t, lab, arg if arg is not None else "-", "-"])
+    # snapshots: snaps[j] is the state before the labelled operation recorded as event j
+    snaps = sorted((j, v) for j, v in world.sched.snaps.items() if v is not None)
+    k = 0
+    for j, v in snaps:
+        while k < len(toks) and toks[k][0] < j:
+            k += 1
+        if k > 0 and toks[k - 1][0] < j:
+            toks[k - 1][4] = ",".join(str(x) for x in v)
+    if toks and world.channel is not None:
+        v = world._observe(None, None, None)
+        if v is not None:
+            toks[-1][4] = ",".join(str(x) for x in v)
+    adj = world.adj
+    head = ["trace", str(adj.channel_request_lookahead), str(adj.send_bytes), str(adj.outbuf_high_watermark),
+            "1" if world.use_poll else "0", str(world.n_workers), world.granularity]
+    return head, ["%s;%s;%s;%s" % (t, lab, arg, snap) for _, t, lab, arg, snap in toks]
